@@ -60,7 +60,7 @@ impl Property for C02 {
             .boxed()
     }
     fn cases(&self, tier: Tier) -> u64 {
-        tier.pick(250_000, 6_000_000)
+        tier.pick(2_000_000, 25_000_000)
     }
     fn check(&self, c: &Case, obs: &mut Obs) -> Result<(), String> {
         let lg = lang(&c.lang);
